@@ -276,11 +276,26 @@ CLAIMS = {
   "technique": "static analysis: control-dependence (guarded dispatch), dominance of validation, call-tree membership, Makefile flag audit",
   "design_ref": "DESIGN.md section 4, C03",
  },
+ "C18": {
+  "text": "Structural necessary conditions of the documented grammar decided on every path of getopt(), searchopt(), reset(), "
+          "getopt_register_opt() and getopt_setrange(): every argv[optind] read happens with optind < argc known (a must-analysis over "
+          "path groups, which also decides that the parser never reads beyond argv); a pack of short options starts exactly on '-x...'; "
+          "'--' and '--name' are consumed and only the latter becomes an option, an operand or a lone '-' ends the options unconsumed; "
+          "the pack cursor yields '-' + character, advances by one and consumes the element exactly at the terminator; a registered name "
+          "matches as a prefix followed by NUL or '='; the option argument comes from the rest of the pack, else the text after '=', "
+          "else the next element while one exists, otherwise the missing-argument index, and '=value' on an option without argument goes "
+          "to the default index; unknown options return the string found, registered ones the canonical string fetched before any "
+          "redirection; reset restores every piece of parsing state before anything is looked at.",
+  "note": "Claimed late (it was listed as not applicable until the rule vocabulary built for the other parsers made these clauses "
+          "expressible without tying them to a spelling). NOT decided: that the sequence of options reported equals the grammar's for every "
+          "argument vector (string values), the line-number dispatch of the GETOPT_SWITCH/GETOPT_OPT macros in getopt.h (expanded only in "
+          "users), the warning texts.",
+  "technique": "static analysis: dominance/branch-atom rules and a path-group must-analysis on clang CFG",
+  "design_ref": "DESIGN.md section 4, C18 and section 9.2",
+ },
 }
 
 NOT_APPLICABLE = {
- "C18": "option-grammar acceptance is a function of argv string values; no shape-level necessary condition exists whose breakage "
-        "is not also triggered by behaviour-preserving edits (DESIGN.md section 6)",
 }
 
 PENDING_REASON = "check not built yet in this revision of the framework (static rule designed in DESIGN.md section 4); not claimed until it runs"
